@@ -52,7 +52,7 @@ def budget(tier):
 
 @st.composite
 def cases(draw):
-    kind = draw(st.sampled_from(['precedence', 'precedence', 'precedence', 'independence', 'defaults', 'exclusive']))
+    kind = draw(st.sampled_from(['precedence', 'precedence', 'precedence', 'independence', 'independence', 'defaults', 'exclusive', 'location']))
     backend = draw(st.sampled_from(['local', 's3c', 's3', 'b2', 'pc', 'pca', 'pca']))
     cmd = draw(st.sampled_from(sorted(COMMANDS)))
     c = {'kind': kind, 'backend': backend, 'cmd': cmd}
@@ -64,6 +64,13 @@ def cases(draw):
     opts = CORE_OPTS + ['backend:' + o for o in BACKEND_OPTS[backend]] * 2
     c['option'] = draw(st.sampled_from(opts))
     c['native'] = draw(st.booleans())
+    if BACKEND_OPTS[backend] and draw(st.booleans()):
+        # another backend option set natively in the default section of the file, identical in every compared invocation
+        c['companion'] = {'option': 'backend:' + draw(st.sampled_from(BACKEND_OPTS[backend])),
+                          'text': draw(st.sampled_from(['1.0', '0.0', 'true', 'false', '1', '0', '1.5', 'none']))}
+    if kind == 'location':
+        c['file_opts'] = draw(st.lists(st.sampled_from(['password-file:missing', 'key-file:missing', 'password-file:ok', 'concurrent',
+                                                        'hide-progress', 'backend']), min_size=1, max_size=3, unique=True))
     if kind == 'precedence':
         c['sources'] = draw(st.lists(st.sampled_from(SOURCES), min_size=1, max_size=4, unique=True))
         c['values'] = {s: draw(st.integers(0, len(TEXT_VALUES) - 1)) for s in SOURCES}
@@ -213,6 +220,11 @@ def toml_value(text, native):
                 return text
         except ValueError:
             pass
+        try:
+            if '.' in text and repr(float(text)) == text:
+                return text             # native TOML float
+        except ValueError:
+            pass
     return json.dumps(text)
 
 
@@ -318,7 +330,7 @@ class Invocation:
             return True
         return False
 
-    def run(self, use_config=True, profile=True):
+    def run(self, use_config=True, profile=True, default_location=False):
         case = self.case
         argv = [case['cmd']] + list(self.pre)
         toml = ''.join(f'{k} = {v}\n' for k, v in self.sections['default'].items())
@@ -326,7 +338,15 @@ class Invocation:
         cfg = os.path.join(self.work, 'replicat.toml')
         with open(cfg, 'w', encoding='utf-8') as f:
             f.write(toml)
-        if use_config:
+        if default_location:
+            # no --config: the file is read from the default location (XDG_CONFIG_HOME of this process, see vk/env.py)
+            from replicat.utils import config as _config
+            dflt = str(_config.DEFAULT_CONFIG_PATH)
+            os.makedirs(os.path.dirname(dflt), exist_ok=True)
+            with open(dflt, 'w', encoding='utf-8') as f:
+                f.write(toml)
+            argv += ['--profile', 'prof']
+        elif use_config:
             argv += ['--config', cfg, '--profile', 'prof']
         else:
             argv += ['--ignore-config']
@@ -336,7 +356,14 @@ class Invocation:
                 and 'repository' not in self.sections['default'] and 'repository' not in self.sections['profile']:
             argv += ['-r', self.repo_value('base')]
         argv += self.argv_opts + self.extra_cmd_args + COMMANDS[case['cmd']]
-        return run_cli(argv, self.environ, self.work), argv, toml
+        try:
+            return run_cli(argv, self.environ, self.work), argv, toml
+        finally:
+            if default_location:
+                try:
+                    os.unlink(dflt)
+                except OSError:
+                    pass
 
 
 def value_text(case, option, idx, source_tag):
@@ -377,17 +404,23 @@ def _run(case, work):
     classes = [kind, 'backend:' + case['backend'], 'cmd:' + case['cmd']]
     if kind == 'exclusive':
         return _exclusive(case, work, classes)
-    option = case['option']
+    option = case.get('option', 'repository')
     classes.append('option:' + option)
     required = {'s3c': ['key_id', 'access_key', 'region', 'host'], 's3': ['key_id', 'access_key', 'region'],
                 'b2': ['key_id', 'application_key'], 'pc': ['account_id', 'secret'], 'pca': ['account_id', 'secret'], 'local': []}[case['backend']]
 
     def base():
         inv = Invocation(case, work)
+        comp = case.get('companion') if kind in ('precedence', 'independence') else None
         for o in required:
-            if 'backend:' + o != option:
+            if 'backend:' + o != option and not (comp and comp['option'] == 'backend:' + o):
                 inv.argv_opts += ['--' + o.replace('_', '-'), 'req-' + o]
+        if comp and comp['option'] != option:
+            inv.set(comp['option'], 'default', comp['text'], True)
         return inv
+
+    if kind == 'location':
+        return _location(case, work, classes, base)
 
     if kind == 'defaults':
         inv = base()
@@ -439,6 +472,9 @@ def _run(case, work):
             if got is not None and got != want:
                 return Outcome(fail('coercion', f'option {option} = {text!r} reaches the backend constructor as {got}, expected {want}',
                                     option=option, text=text), classes, True)
+        f = _companion_check(case, ref)
+        if f is not None:
+            return Outcome(f, classes, True)
         info = {'kind': kind, 'option': option, 'text': text, 'sources': [k[0] for k in results], 'status': ref['status']}
         return Outcome(None, classes, len(results) >= 2, info)
 
@@ -475,9 +511,72 @@ def _run(case, work):
         if got is not None and got != want:
             return Outcome(fail('coercion', f'option {option} = {texts[top]!r} (from {top}) reaches the backend constructor as {got}, '
                                 f'expected {want}', option=option, text=texts[top]), classes, nontrivial)
+    f = _companion_check(case, a)
+    if f is not None:
+        return Outcome(f, classes, nontrivial)
     info = {'kind': kind, 'option': option, 'sources': used, 'values': [texts[s] for s in used], 'status': a['status'],
             'argv': argv_full[:14]}
     return Outcome(None, classes, nontrivial, info)
+
+
+def _companion_check(case, res):
+    """The companion option (a native TOML value in the default section) must reach the backend as that very value."""
+    comp = case.get('companion')
+    if not comp or comp['option'] == case.get('option') or res['status'] != 'ok' or not res['obs']:
+        return None
+    kw = res['obs'].get('backend_kwargs', {})
+    if '!error' in kw:
+        return None
+    text = comp['text']
+    native = toml_value(text, True)
+    if native.startswith('"'):
+        from replicat.utils import guess_type
+        want = _describe(guess_type(text))
+    elif native in ('true', 'false'):
+        want = ['bool', 'True' if native == 'true' else 'False']
+    elif '.' in native:
+        want = ['float', repr(float(native))]
+    else:
+        want = ['int', str(int(native))]
+    got = kw.get(comp['option'][8:])
+    if got is not None and got != want:
+        return fail('coercion', f'option {comp["option"]} = {native} (native TOML value in the default section) reaches the backend '
+                    f'constructor as {got}, expected {want}', option=comp['option'], text=text)
+    return None
+
+
+def _location(case, work, classes, base):
+    """The configuration file is 'either the default one or the one supplied via --config': the same file must have
+    the same effect wherever it is read from (rejections included)."""
+    results = []
+    for default_location in (False, True):
+        inv = base()
+        for fo in case['file_opts']:
+            if fo.startswith(('password-file', 'key-file')):
+                name, how = fo.split(':')
+                path = os.path.join(work, 'secret-' + name)
+                if how == 'ok':
+                    with open(path, 'w') as f:
+                        f.write('pw')
+                elif os.path.exists(path):
+                    os.unlink(path)
+                inv.sections['profile' if name == 'key-file' else 'default'][name] = json.dumps(path)
+            elif fo == 'concurrent':
+                inv.sections['default']['concurrent'] = '7'
+            elif fo == 'hide-progress':
+                inv.sections['profile']['hide-progress'] = 'true'
+            else:
+                for o in BACKEND_OPTS[case['backend']][-2:]:
+                    inv.sections['profile'][o.replace('_', '-')] = json.dumps('from-file-' + o)
+        res, argv, toml = inv.run(default_location=default_location)
+        results.append((_strip(res), argv, toml))
+    classes.append('file:' + '+'.join(sorted(x.split(':')[0] + (':missing' if x.endswith('missing') else '') for x in case['file_opts'])))
+    a, b = results[0][0], results[1][0]
+    if a != b:
+        d = _diff(a, b)
+        return Outcome(fail('location', f'the same configuration file gives {d[0]} when passed with --config but {d[1]} when read from '
+                            f'the default location; file:\n{results[0][2]}', statuses=[a['status'], b['status']]), classes, True)
+    return Outcome(None, classes, True, {'kind': 'location', 'file_opts': case['file_opts'], 'status': a['status']})
 
 
 def _diff(x, y):
